@@ -30,7 +30,8 @@ TOOLS = {"cnfgen": m_cnfgen, "pbgen": m_pbgen, "cnfshuffle": m_cnfshuffle,
 
 
 class Outcome:
-    __slots__ = ("status", "stdout", "stderr", "exc", "stderr_closed")
+    __slots__ = ("status", "stdout", "stderr", "exc", "stderr_closed",
+                 "clock_reads")
 
     def __init__(self):
         self.status = 0
@@ -38,6 +39,7 @@ class Outcome:
         self.stderr = ""
         self.exc = None
         self.stderr_closed = False
+        self.clock_reads = 0
 
     def key(self):
         return (self.status, self.stdout, type(self.exc).__name__
@@ -55,8 +57,14 @@ def reset_process_state():
 
 
 def run_tool(tool, argv, fs, sim=None, stdin=b"", stdin_plan=None,
-             stdout_fail=None):
-    """argv excludes the program name.  stdin: bytes."""
+             stdout_fail=None, clock=None):
+    """argv excludes the program name.  stdin: bytes.  clock: a SimClock
+    that answers every question about the time and the day."""
+    if clock is not None:
+        from detsim.simclock import installed_clock
+        with installed_clock(clock):
+            return run_tool(tool, argv, fs, sim, stdin, stdin_plan,
+                            stdout_fail)
     mod = TOOLS[tool]
     out = Outcome()
     so = SimStream(name="<stdout>", fail_write=stdout_fail)
